@@ -400,9 +400,12 @@ func validatePageSettings(settings *PageSettings) error {
 		// 检查尺寸范围（Word支持的最小和最大尺寸）
 		const minSize = 12.7  // 0.5英寸
 		const maxSize = 558.8 // 22英寸
+		// 尺寸以 twips（1/20磅）取整保存，读回后会有不到 0.01mm 的误差，
+		// 位于边界上的合法尺寸不能因此在之后的设置调用中被拒绝
+		const rounding = 0.01
 
-		if settings.CustomWidth < minSize || settings.CustomWidth > maxSize ||
-			settings.CustomHeight < minSize || settings.CustomHeight > maxSize {
+		if settings.CustomWidth < minSize-rounding || settings.CustomWidth > maxSize+rounding ||
+			settings.CustomHeight < minSize-rounding || settings.CustomHeight > maxSize+rounding {
 			return fmt.Errorf("页面尺寸必须在%.1f-%.1fmm范围内", minSize, maxSize)
 		}
 	}
